@@ -274,9 +274,24 @@ def run_chunk(case: dict) -> dict:
 
     def bump(k: str, v: int = 1) -> None:
         counts[k] = counts.get(k, 0) + v
-    for idx in range(case["count"]):
-        stream, b, tb, meta = gen_case(rng)
+    for idx in range(case["count"] + (1 if case["_idx"] % 4 == 0 else 0)):
+        if idx == case["count"]:
+            # one large store per fourth worker: thousands of traces, more than a thousand of
+            # them to remove in one cleaning step (id lists beyond 999 / beyond the batch size)
+            lr = random.Random(case["rng_seed"] + "-large")
+            st = store.gen_store(lr, lr.choice([4600, 5400, 6200]), ["alpha", "beta"],
+                                 ["A", "B", "C"], 3, True, 60, empty_parent=True)
+            stream = store.flatten(st, lr, lr.choice(["by-trace", "interleaved", "shuffled"]))
+            b, tb = lr.choice([100, 1000, 5000]), lr.choice([0, 1, 5])
+            meta = {"order": "large", "kinds": {}}
+            for t in st["traces"]:
+                meta["kinds"][t["kind"]] = meta["kinds"].get(t["kind"], 0) + 1
+            bump("large_stores")
+        else:
+            stream, b, tb, meta = gen_case(rng)
         v, d, info = judge(stream, b, tb, case["workdir"], f"{case['_idx']}-{idx}")
+        if idx == case["count"]:
+            bump("large_store_removed_traces", info.get("removed_traces", 0))
         n += 1
         bump(v.split(":")[0])
         for k, c in meta["kinds"].items():
